@@ -8,7 +8,7 @@ import (
 
 // C02 (broker role): receiver side of QoS 1/2.
 func C02(c *core.Ctx) {
-	c.Rep.Bound = "HIST, broker role: PUBLISH QoS 1 / QoS 2 (payload A), repeated PUBLISH with the same id (DUP, payload B), PUBREL, repeated PUBREL over packet ids {1,2}, an 8000-byte filler that wraps the rings, one subscriber granted QoS 2; BFS de-duplicated on model + implementation state to depth 6 (quick) / 8 (thorough) and every sequence to depth 4 (quick) / 5 (thorough); bursts of 17-34 exchanges in flight after 0-8 completed ones, released in three orders; client role: see C20/C12 harness (library Client against a scripted server)"
+	c.Rep.Bound = "HIST, broker role: PUBLISH QoS 1 / QoS 2 (payload A), repeated PUBLISH with the same id (DUP, payload B), PUBREL, repeated PUBREL over packet ids {1,2}, an 8000-byte filler that wraps the rings, one subscriber granted QoS 2; BFS de-duplicated on model + implementation state to depth 6 (quick) / 8 (thorough) and every sequence to depth 4 (quick) / 5 (thorough); bursts of 1-36 exchanges in flight (every count, so the queue is exactly full at 16 and 32 and grows at 17 and 33) after 0-8 completed ones, released in three orders; client role: see C20/C12 harness (library Client against a scripted server)"
 	c.Rep.Rule = "per packet one PUBACK/PUBREC/PUBCOMP with the same id; QoS 1 handed on once per PUBLISH; QoS 2 handed on at most once per exchange, never before its PUBREL, at the latest once its PUBREL and those of earlier exchanges are processed, with the content of the first PUBLISH; distinct = canonical model (open exchanges with released/delivered flags) + implementation state"
 	p8k := big(8000, 7)
 	var ops []Action
@@ -50,13 +50,13 @@ func C02(c *core.Ctx) {
 func c02burst(c *core.Ctx, comps map[string]bool) {
 	n := 0
 	for _, done := range []int{0, 3, 5, 8} {
-		for _, inflight := range []int{17, 20, 34} {
+		for inflight := 1; inflight <= 36; inflight++ {
 			for _, order := range []string{"fifo", "lifo", "rot5"} {
 				n++
 				if c.NShards > 1 && n%c.NShards != c.Shard {
 					continue
 				}
-				if !c.Thorough() && (inflight == 34 || done == 8) {
+				if !c.Thorough() && (inflight > 33 || done == 8 || (inflight < 14 && inflight%4 != 0)) {
 					continue
 				}
 				if c.Expired() || c.HasViolation() {
@@ -84,7 +84,8 @@ func c02burst(c *core.Ctx, comps map[string]bool) {
 						idx[i], idx[j] = idx[j], idx[i]
 					}
 				case "rot5":
-					idx = append(idx[5:], idx[:5]...)
+					k := 5 % len(idx)
+					idx = append(idx[k:], idx[:k]...)
 				}
 				for _, i := range idx {
 					hist = append(hist, Action{Kind: "pubrel", Client: "X", ID: ids[i]})
@@ -106,7 +107,7 @@ func c02burst(c *core.Ctx, comps map[string]bool) {
 		}
 	}
 	c.Rep.Scenarios++
-	c.Rep.Sample(map[string]interface{}{"search": "burst", "completed_before": []int{0, 3, 5, 8}, "in_flight": []int{17, 20, 34}, "orders": []string{"fifo", "lifo", "rot5"}})
+	c.Rep.Sample(map[string]interface{}{"search": "burst", "completed_before": []int{0, 3, 5, 8}, "in_flight": "1..36 (quick: 4,8,12,14..33)", "orders": []string{"fifo", "lifo", "rot5"}})
 }
 
 func init() { core.Register("C02", C02) }
